@@ -95,11 +95,67 @@ def h8(s):
 KEY_DEPTH = 4
 
 
+def _edge_text(b, a, s):
+    """canonical text of what taking edge a->s means"""
+    from .util import edge_is_true
+    t = b.term(a)
+    if t["k"] != "switch":
+        return None
+    truth, src = edge_is_true(b, a, s)
+    if src is None:
+        return None
+    if src[0] == "bin":
+        e = "(%s %s %s)" % (norm(b.canon(src[1]["a"], depth=KEY_DEPTH)), src[1]["bin"], norm(b.canon(src[1]["b"], depth=KEY_DEPTH)))
+    elif src[0] == "call":
+        e = "%s(%s)" % (short(callee_def(src[1])) if False else (callee_def(src[1]) or "?").split("<")[0].split("::")[-1] or "call",
+                        ", ".join(norm(b.canon(x, depth=KEY_DEPTH)) for x in src[1]["args"]))
+    elif src[0] == "discr":
+        vals = sorted(v for v, tb in t["targets"] if tb == s)
+        if t["otherwise"] == s:
+            # name the edge by the variants it stands for, so that `if let A = x {} else {..}` and
+            # `match x { A => .., B => .. }` describe the else/B edge identically
+            ty = str(src[1].get("ty", "")).split("<")[0]
+            adt = b.facts.adts.get(ty)
+            allv = None
+            if adt is not None:
+                allv = [v["discr"] for v in adt["variants"]]
+            elif ty in ("std::option::Option", "std::result::Result", "std::ops::ControlFlow"):
+                allv = [0, 1]
+            if allv is not None:
+                listed = {v for v, _ in t["targets"]}
+                vals = sorted(set(vals) | (set(allv) - listed))
+        e = "discr(%s)%s" % (norm(b.canon(src[1], depth=KEY_DEPTH)), vals if vals else "other-than%s" % sorted(v for v, _ in t["targets"]))
+        return e
+    elif src[0] == "place":
+        e = norm(b.canon(src[1], depth=KEY_DEPTH))
+    else:
+        e = str(src[0])
+    if truth is None:
+        vals = sorted(v for v, tb in t["targets"] if tb == s)
+        return "%s in %s" % (e, vals if vals else "other-than%s" % sorted(v for v, _ in t["targets"]))
+    return "%s=%s" % (e, truth)
+
+
+def guard_fingerprint(b, bb, depth=4):
+    out = set()
+    for (a, s) in b.cdeps_transitive(bb):
+        e = _edge_text(b, a, s)
+        if e:
+            out.add(e)
+    if b.kind == "Closure" and b.parent and depth > 0:
+        pb = b.facts.bodies.get(b.parent)
+        if pb is not None:
+            for (cbb, _i, cdef, _ops, _fields) in pb.closures_created():
+                if cdef == b.id:
+                    out.add("^" + guard_fingerprint(pb, cbb, depth - 1))
+    return " & ".join(sorted(out))
+
+
 class Site:
     """key  = function key : kind # hash of the *canonical* (name-independent) operand expressions — what reviewed
               rows and known findings are matched by (renaming a local does not change it);
        text = function key : kind(readable operand expressions) — for humans and for the table generator."""
-    __slots__ = ("b", "bb", "kind", "desc", "ops", "span", "key", "exp", "term", "opty", "text", "canon")
+    __slots__ = ("b", "bb", "kind", "desc", "ops", "span", "key", "exp", "term", "opty", "text", "canon", "guards")
 
     def __init__(self, b, bb, kind, desc, ops, span, exp, term, opty="", raw_ops=()):
         self.b, self.bb, self.kind, self.desc, self.ops, self.span, self.exp, self.term = b, bb, kind, desc, ops, span, exp, term
@@ -115,7 +171,11 @@ class Site:
             self.canon = ", ".join(ops) + "|" + msg
         else:
             self.canon = ", ".join(norm(b.canon(o, depth=KEY_DEPTH)) for o in raw_ops)
-        self.key = "%s:%s#%s" % (fn_key(b), kind, h8(self.canon))
+        # the guards in force at the site (the conditions it is control dependent on, in this function and — for a
+        # closure — at the place that creates it) are part of its identity: a reviewed row argues from them, so a
+        # changed guard makes the site a new, unreviewed one
+        self.guards = guard_fingerprint(b, bb)
+        self.key = "%s:%s#%s" % (fn_key(b), kind, h8(self.canon + "||" + self.guards))
 
 
 def inventory(F, reach):
